@@ -554,8 +554,16 @@ def _to_shape_list(region_list, coordinate_system='fk5'):
                 new_coord.append(u.Quantity(val.y, u.dimensionless_unscaled))
             else:
                 frame = frame_transform_graph.lookup_name(coordsys)
-                new_coord.append(Angle(val.transform_to(frame).spherical.lon))
-                new_coord.append(Angle(val.transform_to(frame).spherical.lat))
+                if frame is not None:
+                    # a CRTF frame name implies the default attributes of
+                    # the frame (J2000 is FK5 at equinox J2000, B1950 is
+                    # FK4 at equinox B1950, ...): the attributes of the
+                    # coordinate (e.g. another equinox) must not be
+                    # carried over into the target frame
+                    frame = frame()
+                skycoord = val.transform_to(frame, merge_attributes=False)
+                new_coord.append(Angle(skycoord.spherical.lon))
+                new_coord.append(Angle(skycoord.spherical.lat))
 
         meta = dict(region.meta)
         meta.update(region.visual)
